@@ -433,8 +433,33 @@ def check(run: Run) -> None:
     with run.obligation("C11.k", "K6", "combiner positions are reconstructed from the candidate bitmap with the bitmap's own word width (word_index * SlotBitmap::bits_per_word + bit)"):
         R.bitmap_positions(run, "C11.k", RED)
 
+    with run.obligation("C11.l", "K6", "`structural_leaves` (the leaves whose paths the next rebuild must revisit) holds DENSE leaf indices: every value pushed into it is the dense index of "
+                        "the leaf (dense_to_key.size() at registration, the key_to_leaf entry, the swap-remove's leaf / last) and never the source position (dictionary slot / list "
+                        "index) the leaf was read from - the two coincide only for a collection that has never lost an element"):
+        n_push = 0
+        for fd_ in t.file(RED).funcs:
+            if fd_.body is None or "structural_leaves . push_back" not in t.file(RED).text(fd_.body[0], fd_.body[1]):
+                continue
+            if any(o is not fd_ and o.body is not None and o.body[0] > fd_.body[0] and o.body[1] < fd_.body[1] and "structural_leaves . push_back" in t.file(RED).text(o.body[0], o.body[1]) for o in t.file(RED).funcs):
+                continue
+            fa_ = R.parse(run, fd_, strict=False)
+            cn_ = R.aliases_of(fa_)
+            # the source positions of this function: what it stores in dense_to_source_slot, and what it reads back from there
+            src_pos = {cn_(c.args[0]).replace(" ", "") for c in R.calls(fa_, "push_back") if cn_(c.fn).endswith("dense_to_source_slot.push_back") and c.args}
+            src_pos |= {d.name for d in R.find(fa_, lambda x: isinstance(x, C.Declarator) and x.init is not None and x.bindings is None) if "dense_to_source_slot[" in cn_(d.init)}
+            for c in [c for c in R.calls(fa_, "push_back") if cn_(c.fn).endswith("structural_leaves.push_back")]:
+                n_push += 1
+                run.count(1, "C11.l")
+                a = cn_(c.args[0]).replace(" ", "") if c.args else ""
+                if a in src_pos:
+                    run.finding("C11.l", f"{fd_.name}:structural-leaf-is-a-source-position:{a[:30]}", f"{fd_.qual} pushes `{a}` into structural_leaves, the SOURCE position it also stores "
+                                "in dense_to_source_slot (a dictionary slot / list index), not the dense leaf index: after any earlier removal the rebuild revisits the wrong "
+                                "path, the new element's combiner is not created and the fold omits it", loc=fa_.loc(c))
+        run.sites(n_push, 6, "structural_leaves pushes")
+
 
 VARIANTS = [
+    {"id": "l-seed-C11-8-structural-leaf-is-source-slot", "expect": "C11.l", "edits": [{"file": RED, "find": "                storage.structural_leaves.push_back(storage.dense_to_key.size());", "replace": "                storage.structural_leaves.push_back(slot);"}]},
     {"id": "k-position-times-literal-8", "expect": "C11.k", "edits": [{"file": RED, "find": "word_index * SlotBitmap::bits_per_word + bit", "replace": "word_index * 8U + bit"}]},
     {"id": "f2-seed-C11-5-key-index-survives-reset", "expect": "C11.f2", "edits": [{"file": RED, "find": "            storage.dense_to_source_handle.clear();\n            storage.key_to_leaf.clear();", "replace": "            storage.dense_to_source_handle.clear();"}]},
     {"id": "f2-remove-keeps-handle", "expect": "C11.f2", "edits": [{"file": RED, "find": "            storage.dense_to_source_slot.pop_back();\n            storage.dense_to_source_handle.pop_back();", "replace": "            storage.dense_to_source_slot.pop_back();"}]},
